@@ -38,6 +38,41 @@ def random_histories(ctx, n, length):
     return cases
 
 
+SAME_BYTES = [["zi32", "zf32", "zai1"], ["zi64", "zf64", "zai2", "zaf2"]]
+
+
+def same_bytes_histories():
+    """An attribute overwritten by a value of another type or shape whose encoding is byte for byte the same (zeros): the
+    last write wins with its type and shape, in compact and in dense storage, with and without other calls in between."""
+    cases = []
+    for grp in SAME_BYTES:
+        for x in grp:
+            for y in grp:
+                if x == y:
+                    continue
+                for obj in ("dataset", "group"):
+                    for pre in (0, 9):
+                        for mid in ([], [{"op": "put", "n": "b", "v": "s7"}], [{"op": "put", "n": "b", "v": "i32"}, {"op": "del", "n": "b", "v": ""}]):
+                            ops = [{"op": "put", "n": "a", "v": x}] + mid + [{"op": "put", "n": "a", "v": y}]
+                            cases.append({"cfg": {"obj": obj, "sb": [2, 0, 3][len(cases) % 3], "pre": pre, "style": 0}, "ops": ops})
+    return cases
+
+
+def fill_sweep():
+    """One string attribute of every length 1..230 (and two of half that): the object header is filled to every size up to and
+    beyond its capacity, one byte at a time, next to the neighbour the driver allocates right behind the object."""
+    cases = []
+    for L in range(1, 231):
+        for obj in ("dataset", "group"):
+            cases.append({"cfg": {"obj": obj, "sb": [2, 3, 0][L % 3] if L % 5 else 2, "pre": 0, "style": 0}, "ops": [{"op": "put", "n": "a", "v": "s%d" % L}]})
+            cases.append({"cfg": {"obj": obj, "sb": 2, "pre": 0, "style": 0},
+                          "ops": [{"op": "put", "n": "a", "v": "s%d" % (L // 2)}, {"op": "put", "n": "b", "v": "s%d" % (L - L // 2)}]})
+    for c in list(cases):      # the same with another object created and written AFTER the attributes
+        d = {"cfg": dict(c["cfg"], late=True), "ops": c["ops"]}
+        cases.append(d)
+    return cases
+
+
 def bulk_histories(heavy=True):
     """Objects whose attribute index fills most of one B-tree leaf (capacity 371 records at the 4 KiB node size), then a few
     deletions that leave the leaf more than half full, then further insertions: the occupancy at which deferred (lazy)
@@ -83,7 +118,7 @@ def run(ctx):
     cases += [json.loads(c) for c in gen2]
     ngen = len(cases)
     # 3. long random histories beyond the bound
-    cases += random_histories(ctx, 400 if thorough else 40, 300) + bulk_histories()
+    cases += random_histories(ctx, 400 if thorough else 40, 300) + bulk_histories() + same_bytes_histories() + fill_sweep()
     path = ctx.write_cases(cases)
     # 4. replay against the real library
     trace, dout = ctx.drive("c02", path)
